@@ -42,6 +42,7 @@ type oplEnv struct {
 	// errors of the previous document and how they rendered then
 	prevErrs     []*schema.ParseError
 	prevRendered string
+	pre          func(input string)
 }
 
 func newOplEnv(t testing.TB) *oplEnv {
@@ -248,6 +249,10 @@ const oplMaxHangs = 3
 
 // parse runs parseInner under the watchdog.
 func (e *oplEnv) parse(input string) oplParsed {
+	if e.pre != nil {
+		// a crash of the whole process (stack overflow, a panic in a goroutine) leaves this input behind
+		e.pre(input)
+	}
 	ch := make(chan oplParsed, 1)
 	go func() { ch <- e.parseInner(input) }()
 	timer := time.NewTimer(oplWatchdog)
@@ -533,6 +538,7 @@ func streamOpl(t *testing.T, o *Out) {
 		id++
 		return fmt.Sprintf("%s%d", tag, id)
 	}
+	env.pre = func(input string) { o.Pre("opl", "crash", "parse "+S(input)) }
 	emitLex := func(tag, input string) {
 		res := oplLexWatched(input)
 		if res == "hang=1" {
